@@ -309,6 +309,14 @@ def run(rep, ctx):
             for jt in ("number", "string", "list", "object", "bool"):
                 if jt == ot:
                     continue
+                # positions that accept one item OR a list of items (or a map): an empty list / map there is a VALID value
+                # ("nothing declared"), and the truthy samples of that type are refused for their elements, not their type
+                last = p[-1] if p else None
+                poly = last in ("invoke", "entry", "exit", "actions", "always", "onDone", "onError", "tags", "guards", "children",
+                                "target", "on", "after", "states", "meta", "params", "input", "context") \
+                    or (len(p) >= 2 and p[-2] in ("on", "after"))
+                if jt in ("list", "object") and poly:
+                    continue
                 truthy = [o for v, o in outs_ if spell.jtype(v) == jt and v]
                 falsy = [(v, o) for v, o in outs_ if spell.jtype(v) == jt and not v]
                 if truthy and all(o[:3] == ("lib", "create", "InvalidConfigError") for o in truthy):
